@@ -558,7 +558,7 @@ func futGen(rng *proto.RNG, tier string, shard, nshards int, w *bufio.Writer) {
 		}
 		caseNo++
 	}
-	bound, limit := 2, 60
+	bound, limit := 2, 200
 	if tier == "thorough" {
 		bound, limit = 3, 1200
 	}
@@ -579,7 +579,7 @@ func futGen(rng *proto.RNG, tier string, shard, nshards int, w *bufio.Writer) {
 		})
 	}
 	// random: up to 3 futures, late arrivals, uniformly random choice among enabled threads
-	nRandom := 25
+	nRandom := 80
 	if tier == "thorough" {
 		nRandom = 400
 	}
